@@ -31,7 +31,8 @@ RULE = ("hierarchies = a root with 1..3 children, each with 0..3 children of its
         "half-way, or as plain dataclasses; all fields defaulted or all required. Sources: an instance of every class at or below "
         "the class loaded through (root and intermediate classes), hand-written dicts (missing keys, unknown keys, unions of "
         "siblings' fields, bogus/foreign type entries), hierarchies where one class has a field(init=False), and holder classes reaching the hierarchy through a dataclass-typed "
-        "field, List[..] and Dict[str, ..] (one and two levels deep). Each case carries 2 save_dc_types x 3 drop_extra_fields "
+        "field, List[..] and Dict[str, ..] (one and two levels deep), including a derived holder HS(H) whose dataclass-typed "
+        "fields hold STRICT subclasses of their declared types, loaded through H with decode_into_subclasses unset. Each case carries 2 save_dc_types x 3 drop_extra_fields "
         "observations. Non-trivial = the dict has at least one key the loading class does not know or a type entry; distinct by "
         "full case.")
 TRUSTED = ["dataclasses.fields / __subclasses__ / the import system, as observed through introspection of the created classes "
@@ -271,6 +272,9 @@ def gen(tier, seed):
         cases.append(dict(setup=setup, via=via, src={"inst": instance_of(d, fields[d], rng)}, fresh=False))
     for _ in range(n_hold):
         cases.append(holder_case(rng.choice(fam) if rng.random() < 0.7 else random_big(rng), rng))
+    # a derived class with a dataclass-typed field holding a subclass of the declared type, loaded through its base
+    for _ in range(n_hold):
+        cases.append(holder_case(rng.choice(fam) if rng.random() < 0.8 else random_big(rng), rng, nested=True))
     # the same kind of cases, each in an interpreter of its own
     for _ in range(n_fresh):
         c = json.loads(json.dumps(rng.choice(cases)))
@@ -306,43 +310,47 @@ def raw_dict(classes, fields, rng):
     return out
 
 
-def holder_case(classes, rng):
+def holder_case(classes, rng, nested=False):
+    """nested=True: H(x: T) and HS(H)(y: T') holding STRICT subclasses of the declared types, loaded through H, mostly with
+    decode_into_subclasses left unset (the subclass search is then requested by drop_extra_fields=False only)."""
     fields = all_fields(classes)
     anc = ancestors_of(classes)
     names = [c["name"] for c in classes]
     order = rng.choice(topo_orders(classes, rng, 6))
-    config = rng.choice(KW_CONFIGS)
+    config = rng.choice(["off", "plain", "off", "on", "mid-on"]) if nested else rng.choice(KW_CONFIGS)
     setup = apply_config(classes, order, config, rng.random() < 0.2)
 
     def below(t):
         return [n for n in names if n == t or t in anc[n]]
 
     def inst(t):
-        d = rng.choice(below(t))
+        strict = [n for n in below(t) if n != t]
+        d = rng.choice(strict) if nested and strict and rng.random() < 0.9 else rng.choice(below(t))
         return instance_of(d, fields[d], rng)
 
     inner = [n for n in names if n[0] != "G"]
     tx, tl, td = rng.choice(inner), rng.choice(inner), rng.choice(inner)
-    shape = rng.choice(["x", "x", "xl", "xd", "xld", "xld"])
+    shape = "x" if nested else rng.choice(["x", "x", "xl", "xd", "xld", "xld"])
     hf = [["x", "dc", tx]]
     if "l" in shape:
         hf.append(["xs", "list", tl])
     if "d" in shape:
         hf.append(["m", "dict", td])
-    holders = [dict(name="H", bases=[], fields=hf, kw=rng.choice([None, None, True]) if setup["kind"] == "ser" else None)]
+    holders = [dict(name="H", bases=[], fields=hf,
+                    kw=rng.choice([None, None, True]) if setup["kind"] == "ser" and not nested else None)]
     hv = {"c": "H", "f": [["x", inst(tx)]]}
     if "l" in shape:
         hv["f"].append(["xs", {"l": [inst(tl) for _ in range(rng.choice([0, 1, 1, 2]))]}])
     if "d" in shape:
         hv["f"].append(["m", {"d": [[k, inst(td)] for k in rng.sample(["k1", "k2", "k3"], rng.choice([0, 1, 2]))]}])
     via, v = "H", hv
-    deep = rng.random()
+    deep = 0.0 if nested else rng.random()
     if deep < 0.3:
         # a subclass of the holder with one more dataclass-typed field, loaded through the holder
         ty = rng.choice(inner)
         holders.append(dict(name="HS", bases=["H"], fields=[["y", "dc", ty]], kw=None))
         v = {"c": "HS", "f": hv["f"] + [["y", inst(ty)]]}
-        via = rng.choice(["H", "HS"])
+        via = "H" if nested else rng.choice(["H", "HS"])
     elif deep < 0.6:
         holders.append(dict(name="O", bases=[], fields=[["h", "dc", "H"]], kw=None))
         via, v = "O", {"c": "O", "f": [["h", hv]]}
@@ -550,6 +558,7 @@ class _H:
         self.order = [c[0] for c in hier]
         self.bases = {c[0]: c[1] for c in hier}
         self.fields = {c[0]: [f[0] for f in c[2]] for c in hier}
+        self.ftype = {c[0]: {f[0]: f[1] for f in c[2]} for c in hier}
         self.required = {c[0]: [f[0] for f in c[2] if f[2] is None and f[3]] for c in hier}
         self.noninit = any(not f[3] for c in hier for f in c[2])
         self.defaults = {c[0]: {f[0]: f[2][1] for f in c[2] if f[2] is not None} for c in hier}
@@ -574,6 +583,27 @@ class _H:
 
     def identified(self, b, d):
         return d in self.cone(b) and all(c == d or set(self.fields[c]) != set(self.fields[d]) for c in self.cone(b))
+
+    def hid(self, b, v):
+        """hereditarily identified (mirror of SubclassSpec.hid)"""
+        if not isinstance(v, dict) or "c" not in v or v["c"] not in self.fields:
+            return False
+        d = v["c"]
+        if not self.identified(b, d) or [k for k, _ in v["f"]] != self.fields[d]:
+            return False
+        for k, x in v["f"]:
+            t = self.ftype[d][k]
+            if isinstance(x, int):
+                ok = t[0] == "int"
+            elif "c" in x:
+                ok = t[0] == "dc" and self.hid(t[1], x)
+            elif "l" in x:
+                ok = t[0] == "list" and not x["l"]
+            else:
+                ok = t[0] == "dict" and not x["d"]
+            if not ok:
+                return False
+        return True
 
     def enabled(self, n):
         seen = 0
@@ -621,6 +651,35 @@ def _first_diff(a, b, where="top"):
     return where
 
 
+def _nondrop(h, b, v, r, depth=0):
+    """Mirror of SubclassSpec.spec_nondrop: level by level through the dataclass-typed fields."""
+    where = "nested-" if depth else ""
+    if not isinstance(r, dict) or "c" not in r or r["c"] not in h.fields:
+        return ("result-shape", where + "top", f"observed {r} for {v}")
+    if [k for k, _ in r["f"]] != h.fields[r["c"]]:
+        return ("result-shape", where + "fields", f"fields {[k for k, _ in r['f']]} of a {r['c']}")
+    vkeys = [k for k, _ in v["f"]]
+    if h.identified(b, v["c"]):
+        if r["c"] != v["c"]:
+            return ("identified", where + "class",
+                    f"{v['c']} is identified by its field set at/below {b}; expected {v}, observed {r}")
+    elif r["c"] not in h.cone(b) or not h.has_all(r["c"], vkeys):
+        return ("superset", where + "class", f"{r['c']} is not a class at/below {b} with every field of {vkeys}")
+    rv = dict((k, x) for k, x in r["f"])
+    for k, x in v["f"]:
+        if isinstance(x, int):
+            if rv.get(k) != x:
+                return ("value", where + "search", f"field {k} was {x}, came back {rv.get(k)} in {r}")
+        elif "c" in x:
+            t = h.ftype[v["c"]][k]
+            if t[0] != "dc" or k not in rv:
+                return ("result-shape", where + "field", f"field {k} of {r}")
+            j = _nondrop(h, t[1], x, rv[k], depth + 1)
+            if j:
+                return j
+    return None
+
+
 def _judge(case, obs):
     """-> (clause, detail, reason) of the first observation violating the property, or None."""
     h = _H(obs["hier"])
@@ -639,6 +698,13 @@ def _judge(case, obs):
                     if r != v:
                         return ("dc-types", _first_diff(v, r), f"{tag}: expected exactly {v}, observed {r}")
                     continue
+                if not eff:
+                    j = _nondrop(h, via, v, r)
+                    if j:
+                        return (j[0], j[1], f"{tag}: {j[2]}")
+                    if h.hid(via, v) and r != v:
+                        return ("identified", "value", f"{tag}: every level of {v} is identified; observed {r}")
+                    continue
                 if not isinstance(r, dict) or "c" not in r or r["c"] not in h.fields:
                     return ("result-shape", "top", f"{tag}: observed {r}")
                 rkeys = [k for k, _ in r["f"]]
@@ -647,19 +713,9 @@ def _judge(case, obs):
                     return ("result-shape", "fields", f"{tag}: fields {rkeys} of a {r['c']}")
                 for k, x in v["f"]:
                     if isinstance(x, int) and k in rv and rv[k] != x:
-                        return ("value", "drop" if eff else "search", f"{tag}: field {k} was {x}, came back {rv[k]} in {r}")
-                vkeys = [k for k, _ in v["f"]]
-                flat = all(isinstance(x, int) for _, x in v["f"])
-                if eff:
-                    if r["c"] != via:
-                        return ("drop", "class", f"{tag}: expected exactly the base {via}, observed {r['c']}")
-                elif h.identified(via, v["c"]):
-                    if r["c"] != v["c"] or (flat and r != v):
-                        return ("identified", "class" if r["c"] != v["c"] else "value",
-                                f"{tag}: {v['c']} is identified by its field set below {via}; expected {v}, observed {r}")
-                else:
-                    if r["c"] not in h.cone(via) or not h.has_all(r["c"], vkeys):
-                        return ("superset", "class", f"{tag}: {r['c']} is not a class at/below {via} with every field of {vkeys}")
+                        return ("value", "drop", f"{tag}: field {k} was {x}, came back {rv[k]} in {r}")
+                if r["c"] != via:
+                    return ("drop", "class", f"{tag}: expected exactly the base {via}, observed {r['c']}")
             else:
                 kv = [(k, x) for k, x in src["raw"]]
                 tkey = [x for k, x in kv if k == "_type_"]
